@@ -532,6 +532,57 @@ class Report:
         return 1 if self.violations else 0
 
 
+
+# ---------------------------------------------------------------------------
+# independent re-check (thorough tier): coqchk on the property's compiled modules
+
+STDLIB_PRIMITIVE_PREFIXES = ("Coq.Numbers.Cyclic.Int63.PrimInt63.", "Coq.Numbers.Cyclic.Int63.Uint63.",
+                             "Coq.Numbers.Cyclic.Int63.Sint63.")
+
+
+def coqchk(prop_files, timeout=3000):
+    """Runs `coqchk -o -silent` on the given Properties/*.v modules (and, transitively, on everything they depend
+    on) using a private copy of the .vo files, so that a concurrent build cannot change them mid-run. Returns
+    {"ok", "modules": {name: {"rc", "axioms": [...]}}}. Allowed axioms: none, except the standard library's own
+    primitive 63-bit integer declarations (loaded by Model/Sim.v for an observation hash; no theorem uses them)."""
+    import shutil
+    import tempfile
+    tmp = tempfile.mkdtemp(prefix="coqchk.", dir=os.path.join(ROOT, "build"))
+    res = {"ok": True, "modules": {}}
+    try:
+        subprocess.run(["rsync", "-a", "--include=*/", "--include=*.vo", "--exclude=*",
+                        os.path.join(COQ, "theories"), tmp + "/"], check=True)
+        for f in prop_files:
+            mod = "EC." + f[len("theories/"):-2].replace("/", ".")
+            try:
+                r = subprocess.run(["coqchk", "-o", "-silent", "-Q", "theories", "EC", mod], cwd=tmp,
+                                   capture_output=True, text=True, timeout=timeout)
+                out, rc = r.stdout + r.stderr, r.returncode
+            except subprocess.TimeoutExpired:
+                out, rc = "timeout", 124
+            ax, on = [], False
+            for l in out.splitlines():
+                if l.startswith("* Axioms:"):
+                    on = True
+                    rest = l[len("* Axioms:"):].strip()
+                    if rest and rest != "<none>":
+                        ax.append(rest)
+                    continue
+                if l.startswith("* "):
+                    on = False
+                if on and l.strip():
+                    ax.append(l.strip())
+            bad = [a for a in ax if not a.startswith(STDLIB_PRIMITIVE_PREFIXES)]
+            res["modules"][mod] = {"rc": rc, "axioms": ax if len(ax) <= 3 else ax[:3] + ["... %d standard-library primitive-integer names in all" % len(ax)],
+                                   "not_allowed": bad}
+            if rc != 0 or bad:
+                res["ok"] = False
+                res["modules"][mod]["tail"] = out[-600:]
+    finally:
+        shutil.rmtree(tmp, ignore_errors=True)
+    return res
+
+
 class MachineryError(Exception):
     pass
 
